@@ -2,7 +2,9 @@ use std::io;
 
 use crate::error::Error;
 
-use super::{private, read_described_bytes, read_primitive_bytes_or_else, Read};
+use super::{
+    private, read_described_bytes, read_primitive_bytes_or_else, Read, READ_CHUNK_SIZE,
+};
 
 /// A reader for IO stream
 #[derive(Debug)]
@@ -33,14 +35,18 @@ impl<R: io::Read> IoReader<R> {
 
     /// Fill the internal buffer with the given length
     pub fn fill_buffer(&mut self, len: usize) -> Result<(), io::Error> {
-        let l = self.buf.len();
-        if l < len {
-            self.buf.resize(len, 0);
-            self.reader.read_exact(&mut self.buf[l..])?;
-            Ok(())
-        } else {
-            Ok(())
+        // `len` usually comes from a length field of untrusted input. Grow the
+        // buffer only as the bytes actually arrive.
+        while self.buf.len() < len {
+            let l = self.buf.len();
+            let end = len.min(l + READ_CHUNK_SIZE);
+            self.buf.resize(end, 0);
+            if let Err(err) = self.reader.read_exact(&mut self.buf[l..]) {
+                self.buf.truncate(l);
+                return Err(err);
+            }
         }
+        Ok(())
     }
 }
 
